@@ -381,7 +381,7 @@ def r4(idx, rep):
     # the roots themselves: _save's run_dir is the instance dir of the result being saved
     fs = idx.method("ResultSerializer", "save_result")
     call = [c for c in walk_no_nested(fs.node) if isinstance(c, ast.Call) and call_name(c) == "_save"]
-    kw = K.kw_text(fs, call[0]) if len(call) == 1 else {}
+    kw = K.kw_values(idx, fs, call[0]) if len(call) == 1 else {}
     rep.check(kw.get("run_dir") == "result.run_dir" and kw.get("identity") == "result.identity_or_index", "R4",
               f"{fs.file}::ResultSerializer.save_result passes the result's own run dir and identity", f"{kw.get('run_dir')}, {kw.get('identity')}", K.where(fs, fs.node))
     fv = idx.method("ResultSerializer", "_save")
